@@ -120,6 +120,12 @@ class Builder:
         if k == "named":
             self.info["shapes"].add("named")
             return self.named(b[1])
+        if k == "singleton":
+            # objects pickled by a global NAME: __reduce_ex__ returns a string (Ellipsis, NotImplemented), or a class whose
+            # name is not an attribute of its __module__ (NoneType): both are listed known findings
+            self.info["shapes"].add("singleton")
+            self.info.setdefault("singletons", set()).add(b[1] % 3)
+            return [Ellipsis, NotImplemented, type(None)][b[1] % 3]
         if k == "enum":
             self.info["shapes"].add("enum")
             return [co.Color.RED, co.Color.GREEN][b[1] % 2]
@@ -495,7 +501,10 @@ def eval_graph(case):
         except RecursionError:
             raise
         except Exception as e:
-            failures.append(Failure("dump-raised:%s:%s" % (dname, exc_key(e)), exc_msg(e)))
+            key = "dump-raised:%s:%s" % (dname, exc_key(e))
+            if info.get("singletons", set()) & {0, 1} and isinstance(e, ValueError) and "represent_object" in exc_key(e):
+                key = "reduce-returns-global-name:" + key
+            failures.append(Failure(key, exc_msg(e)))
             continue
         plain_text = text if isinstance(text, str) else text.decode(opts.get("encoding") or "utf-8")
         has_obj = bool(_objtag.search(plain_text))
@@ -521,7 +530,10 @@ def eval_graph(case):
                 if model_rejects and "unconstructable recursive" in str(e):
                     pass        # exactly what the model of the construction order predicts
                 else:
-                    failures.append(Failure("load-rejects-dump-output:%s>%s:%s" % (dname, lname, exc_key(e)), "%s\ntext=%r" % (exc_msg(e), plain_text[:400])))
+                    key = "load-rejects-dump-output:%s>%s:%s" % (dname, lname, exc_key(e))
+                    if 2 in info.get("singletons", set()) and "cannot find 'NoneType' in the module 'builtins'" in str(e):
+                        key = "class-name-not-in-its-module:" + key
+                    failures.append(Failure(key, "%s\ntext=%r" % (exc_msg(e), plain_text[:400])))
                 continue
             except Exception as e:
                 key = "load-raised:%s>%s:%s" % (dname, lname, exc_key(e))
@@ -560,8 +572,10 @@ def eval_graph(case):
                 if exc is not None:
                     if model_rejects and isinstance(exc, yaml.constructor.ConstructorError):
                         continue
-                    failures.append(Failure("full-loader-rejects-tuple/complex/name-subset:%s>%s:%s" % (dname, lname, type(exc).__name__ if not isinstance(exc, str) else exc),
-                                            "%s\ntext=%r" % (exc, plain_text[:300])))
+                    key = "full-loader-rejects-tuple/complex/name-subset:%s>%s:%s" % (dname, lname, type(exc).__name__ if not isinstance(exc, str) else exc)
+                    if 2 in info.get("singletons", set()) and "cannot find 'NoneType' in the module 'builtins'" in str(exc):
+                        key = "class-name-not-in-its-module:" + key
+                    failures.append(Failure(key, "%s\ntext=%r" % (exc, plain_text[:300])))
                 else:
                     d = graph_equal(ref, back)
                     if d:
@@ -596,6 +610,7 @@ def blueprints(max_leaves=14):
                      st.integers(0, 5).map(lambda i: ("frozen", i)), st.integers(0, 5).map(lambda i: ("registered", i)),
                      st.integers(0, 5).map(lambda i: ("regex", i)), st.integers(0, 5).map(lambda i: ("registeredsub", i)),
                      st.integers(0, 5).map(lambda i: ("complexsub", i)))
+    leaf = st.tuples(leaf, st.sampled_from(range(300))).map(lambda t: ("singleton", t[1]) if 150 <= t[1] < 153 else t[0])      # 1 leaf in 100
     ref = st.integers(0, 40).map(lambda n: ("ref", n))
     attr = st.sampled_from(["a", "b", "c", "name", "value"])
     hkey = st.one_of(hashable_scalars().map(lambda v: ("s", v)), hashable_scalars().map(lambda v: ("s", v)),
@@ -692,7 +707,7 @@ def arms(tier):
 
 
 REQUIRED_CLASSES = ["shape:plain", "shape:slots", "shape:slotsdict", "shape:getset", "shape:newargs", "shape:reduced", "shape:listsub",
-                    "shape:dictsub", "shape:odsub", "shape:odslots", "shape:setsub", "shape:tuplesub", "shape:strsub", "shape:intsub", "shape:enum", "shape:nt", "shape:frozen",
+                    "shape:singleton", "shape:dictsub", "shape:odsub", "shape:odslots", "shape:setsub", "shape:tuplesub", "shape:strsub", "shape:intsub", "shape:enum", "shape:nt", "shape:frozen",
                     "shape:named", "shape:module", "shape:registered", "shape:registeredsub", "shape:complexsub", "shape:regex", "shape:t", "shape:fs", "shape:od", "sharing", "cycle:constructible", "cycle:unconstructible",
                     "instance-as-key", "text:tuple/complex/name-subset-only", "text:has-object-tags"]
 
@@ -700,6 +715,10 @@ REQUIRED_CLASSES = ["shape:plain", "shape:slots", "shape:slotsdict", "shape:gets
 def known_class(arm, case, key):
     if key.startswith("state-hashed-key:"):
         return "mapping-key-hashed-before-its-state-is-set"
+    if key.startswith("reduce-returns-global-name:"):
+        return "reduce-returning-a-global-name-makes-dump-raise-valueerror"
+    if key.startswith("class-name-not-in-its-module:"):
+        return "class-whose-name-is-not-in-its-module-dumps-an-unloadable-name"
     if key.startswith("ordered-dict-subclass-items-sorted:"):
         return "ordereddict-subclass-items-sorted-on-dump"
     return None
@@ -724,6 +743,18 @@ def pinned_known(key, rec):
             return True
     if key == "empty-tuple-subclass-instance-never-anchored":
         return _empty_tuplesub_shared()
+    if key == "reduce-returning-a-global-name-makes-dump-raise-valueerror":
+        try:
+            yaml.dump([Ellipsis], Dumper=yaml.Dumper)
+            return False
+        except ValueError:
+            return True
+    if key == "class-whose-name-is-not-in-its-module-dumps-an-unloadable-name":
+        try:
+            yaml.unsafe_load(yaml.dump(type(None)))
+            return False
+        except yaml.constructor.ConstructorError:
+            return True
     if key == "ordereddict-subclass-items-sorted-on-dump":
         o = co.ODSub()
         o["b"] = 1
